@@ -257,6 +257,7 @@ func runC09(c *fw.Check) {
 	})
 	// Part C: the same through the assembly parser and LLVM.
 	c09asm(c, maxW)
+	c09aggregates(c)
 	// Part D: histories on ONE constant.
 	c09histories(c)
 }
